@@ -43,6 +43,26 @@ def session(rng, nnodes, nmsgs, frag_off=False, closed=True):
     return f"net {len(tree)} {1 if closed else 0} " + " ; ".join(ops)
 
 
+def reuse_session(rng):
+    """an application that builds its header once and re-uses it: consecutive messages of one sender carry the same
+    frame id and type; each is read out at the destination before the next is written, so each is a new message"""
+    tree = gen_net.rand_tree(rng, rng.randint(2, 6))
+    names = [f"n{i}" for i in range(len(tree))]
+    ops = [f"new {names[i]} network {i} {gen_net.addr_of(t)}" for i, t in enumerate(tree)]
+    s = rng.randrange(len(tree))
+    d = rng.choice([i for i in range(len(tree)) if i != s])
+    typ, fid = rng.randint(0, 127), rng.randrange(1, 65536)
+    for k in range(rng.randint(3, 9)):          # more than the queue holds, too
+        if rng.random() < 0.2:
+            d = rng.choice([i for i in range(len(tree)) if i != s])
+        n = rng.choice([0, 1, 8, 24, 24, 25, 60])
+        ops.append(f"{names[s]} writeid {gen_net.addr_of(tree[d])} {typ} {rbytes(rng, n)} {fid}")
+        ops += [f"{names[rng.randrange(len(tree))]} update", f"{names[rng.randrange(len(tree))]} update"]
+        for i in range(len(tree)):
+            ops += [f"{names[i]} read", f"{names[i]} read"]
+    return f"net {len(tree)} 1 " + " ; ".join(ops)
+
+
 class C05(PropCheck):
     prop = "C05"
     rule = ("sampled parent-closed trees (2..8 nodes, depth <= 4) of real routing-only / full nodes on simulated radios, loss-free; "
@@ -60,6 +80,7 @@ class C05(PropCheck):
         n = 120 if tier == "quick" else 2000
         cs = [(session(rng, rng.randint(2, 8), rng.randint(1, 4)), "tree-messages") for _ in range(n)]
         cs += [(session(rng, rng.randint(2, 6), rng.randint(1, 3), frag_off=True), "tree-messages-frag-off") for _ in range(n // 3)]
+        cs += [(reuse_session(rng), "header-reused") for _ in range(n // 4)]
         return cs
 
     def nontrivial(self, line, io):
@@ -68,7 +89,7 @@ class C05(PropCheck):
     def judge(self, triples):
         out = []
         for l, io, mo in triples:
-            if not l.startswith("net ") or (" write " not in l and " nsend " not in l):
+            if not l.startswith("net ") or (" write " not in l and " nsend " not in l and " writeid " not in l):
                 continue
             names = l.split(" ; ")
             parts = io.split(" ; ")
@@ -107,7 +128,7 @@ class C05(PropCheck):
                         return f"message {oct(src)}->{oct(dst)} (op {kk}) was delivered but write() returned {result}"
                     return None
 
-                if t[1] in ("write", "nsend"):
+                if t[1] in ("write", "nsend", "writeid"):
                     what = settle()
                     if what:
                         break
